@@ -1764,6 +1764,32 @@ theorem src_gammatone_erb_constants_closed_form (n : ℕ) (hn : 1 ≤ n) :
   exact ⟨h1, h3, h4, h5, h6⟩
 
 
+/-! ### 15j. `gammatone.sampled` REGENERATED from the source
+
+The body of `gammatone.sampled` (the scalar `A`, the two polynomials in `z ** -k` as dense coefficient lists, the call
+`(numerator / denominator).diff(n=eta-1, mul_after=-z)` = `diffNum … (eta - 1)` — the loop of `ZFilter.diff`, `eta - 1`
+passes of `diffStep`, which stays a hand model of lazy_filters.py —, `ZFilter(filt.numpoly) / denominator`,
+`1 / denominator`, the two divisions by the measured gain `abs(f.freq_response(freq))` = `normalise`, the cascade
+`[f0] + [fn] * (eta - 1)`) and the defaults `phase=0, eta=4` of its `def` line are translated and are the model's
+`gammatoneSampled` / `gammatoneSampledCall`, as functions.  7k (every section: unit gain at the centre frequency, poles
+`A·e^{±jf}`) is restated about the regenerated definition; the closed form 7g of the differentiated numerator is about
+`diffNum` on the very coefficient lists the regenerated body builds. -/
+
+theorem src_gammatone_sampled_is_model {α : Type} [TrigField α] [ZeroTest α] :
+    (ALV.Gen.C13.gammatone_sampled : α → α → α → ℕ → List (Coefs α)) = gammatoneSampled := Src.gammatone_sampled
+theorem src_gammatone_sampled_call_is_model {α : Type} [TrigField α] [ZeroTest α] :
+    (ALV.Gen.C13.gammatone_sampled_call : α → α → Option α → Option ℕ → List (Coefs α)) = gammatoneSampledCall :=
+  Src.gammatone_sampled_call
+
+/-- **C13.15k** theorem 7k (`gammatone_sampled_all_sections`) about the regenerated body -/
+theorem src_gammatone_sampled_all_sections (f bw φ : ℝ) (eta : ℕ) (h0 : 0 < f) (h1 : f < Real.pi)
+    (hbw : 0 < bw) :
+    (ALV.Gen.C13.gammatone_sampled f bw φ eta).length = eta - 1 + 1 ∧ Real.exp (-bw) < 1 ∧
+    ∀ s ∈ ALV.Gen.C13.gammatone_sampled f bw φ eta, magSq s f = 1 ∧
+      ∀ p : ℂ, IsPole s p ↔ p = Real.exp (-bw) * Complex.exp (I * f) ∨
+                           p = Real.exp (-bw) * Complex.exp (-(I * f)) := by
+  rw [src_gammatone_sampled_is_model]; exact gammatone_sampled_all_sections f bw φ eta h0 h1 hbw
+
 -- 15c / 15d on a concrete input: lowpass.pole regenerated, read twice with a two-valued cut-off Stream
 example : (runReads (argSeq [(1 : Float), 2] [0.5]) (ALV.Gen.C13.progOf (.lowpass .pole)) [0, 0] Pos.init).length = 2 := rfl
 
